@@ -383,7 +383,7 @@ def mk_nonce_e2(ivlen):
             return [z3.BitVecVal(0, 8)] * n
 
         def solve(reach):
-            src = open("/repo/aiocoap/oscore.py").read()
+            src = __import__("vf.api", fromlist=["x"]).repo_source("aiocoap/oscore.py")
 
             def h_len(I, p, x):
                 return len(x)
